@@ -30,7 +30,7 @@ ASSUMPTIONS = [
 BUDGET = {"quick": 75, "thorough": 900}
 ROUNDS = {"thorough": 16}
 FLOORS = {"compared": {"quick": 250, "thorough": 2500}, "brute_force": {"quick": 150, "thorough": 1500},
-          "subst_kinds": 9, "site_kinds": 4, "pruning_vs_brute": 20}
+          "subst_kinds": 9, "site_kinds": 4, "pruning_vs_brute": 20, "with_very_short_branches": {"quick": 30, "thorough": 300}}
 
 
 def EXHAUSTIVE(tier):
@@ -86,6 +86,16 @@ def cases(tier, seed):
         c = phylo.random_case(rng, t, k, None, None, ncols=int(rng.integers(2, 9)))
         c["big"] = True
         out.append(c)
+    # very short branches (what zero-length branches of a start tree and optimisers at their lower bound look like): 1e-13 .. 1e-8
+    k = 0
+    for i, c in enumerate(out):
+        if c["tree"] == "unrooted" and c.get("bl_mode") == "param":
+            k += 1
+            if k % 3 == 0:
+                h = int(hashlib.md5(repr(c["branch_lengths"]).encode()).hexdigest()[:8], 16)
+                r = np.random.default_rng(h)
+                c["branch_lengths"] = [float(x) if r.random() < 0.4 else float(10 ** r.uniform(-13, -8)) for x in c["branch_lengths"]]
+                c["tiny_branches"] = True
     # discrete traits: every third case with a general data type takes its tip data from a taxon attribute (AttributePattern)
     for i, c in enumerate(out):
         if c["datatype"]["kind"] == "general" and i % 3 == 1:
@@ -125,7 +135,7 @@ def run_case(case):
     C = {"compared": 0, "brute_force": 0, "pruning_ref": 0, "pruning_vs_brute": 0, "subst_kinds": [sk],
          "site_kinds": [case["site"]["kind"]], "tree_kinds": [case["tree"] + ":" + str((case.get("clock") or {}).get("kind"))],
          "tip_modes": ["states" if case["use_tip_states"] else ("amb" if case["use_ambiguities"] else "partials")],
-         "datatypes": [case["datatype"]["kind"]]}
+         "datatypes": [case["datatype"]["kind"]], "with_very_short_branches": int(bool(case.get("tiny_branches")))}
     like, dic, val = evaluate(case)
     lib = tt.as_np(val, "C01:not-a-tensor", "log-likelihood")
     if lib.size != 1:
